@@ -113,9 +113,21 @@ def run(tier, seed):
             dh.append({"id": f"diff-{name}-{a}", "ops": hist_ops + [q, {"op": "drop_caches"}, q, {"op": "fault", "t": 0, "file": "mr", "kind": "garbage"}, q,
                                                                   {"op": "restart"}, q, {"op": "fault", "t": 0, "file": "mr", "kind": "truncate"},
                                                                   {"op": "fault", "t": 0, "file": "mrseek", "kind": "delete"}, q]})
-    for r in run_harness("hist", dh, wd, "cdiff", shards=8, timeout=900):
+    names5 = ["as built", "caches removed", "messages+runs sidecar unreadable", "after restart", "sidecar torn, its seek index deleted"]
+    case_names = {h["id"]: names5 for h in dh}
+    # a sidecar line whose newline was lost in a crash and onto which the next append was glued (one unparsable line that
+    # holds two frames), in the part of the file the tail scan reads and further back; then a restart
+    for name, hist_ops, anchors in (("recompact", recompact, [2, 4]), ("long352", long_a, [36, 40, 43]), ("long420", long_b, [60, 69])):
+        for a in anchors:
+            for fl in ("mr", "full"):
+                for pm in (990, 900, 500):
+                    q = {"op": "compile", "t": 0, "m": a, "s": 0, "record": False}
+                    h = {"id": f"glue-{name}-{a}-{fl}-{pm}", "ops": hist_ops + [q, {"op": "fault", "t": 0, "file": fl, "kind": "unline", "at_pm": pm}, q, {"op": "restart"}, q]}
+                    dh.append(h)
+                    case_names[h["id"]] = ["as built", f"a line of the {fl} sidecar glued onto the next (at {pm} per mille)", "after that and a restart"]
+    for r in run_harness("hist", dh, wd, "cdiff", shards=12, timeout=900):
         answers = [x for x, o in zip(r["results"], [h for h in dh if h["id"] == r["id"]][0]["ops"]) if o["op"] == "compile"]
-        names = ["as built", "caches removed", "messages+runs sidecar unreadable", "after restart", "sidecar torn, its seek index deleted"]
+        names = case_names[r["id"]]
 
         def proj(x):
             ret = x.get("ret") or {}
